@@ -123,7 +123,46 @@ func (d *daemon) stop() {
 
 // runDaemonFault injects one failure cause, idle or under sustained audit load, and observes exit
 // status and time to exit.
+//
+// The scenario runs under a hard deadline: a daemon that stops consuming its pipes (the very thing C08
+// forbids) must not take the harness down with it — the writers blocked on the full pipes are released
+// by killing the daemon, and the case is reported as "did not exit".
+var curDaemon *daemon
+var curMu sync.Mutex
+
 func runDaemonFault(cause string, load bool) string {
+	done := make(chan string, 1)
+	go func() { done <- runDaemonFaultInner(cause, load) }()
+	select {
+	case r := <-done:
+		return r
+	case <-time.After(60 * time.Second):
+		curMu.Lock()
+		if curDaemon != nil && curDaemon.cmd.Process != nil {
+			curDaemon.cmd.Process.Kill()
+		}
+		curMu.Unlock()
+		select {
+		case <-done:
+		case <-time.After(10 * time.Second):
+		}
+		return "X:0:0"
+	}
+}
+
+// waitBounded waits for the load writer; false = it is still blocked (the daemon no longer reads)
+func waitBounded(lw *sync.WaitGroup, d time.Duration) bool {
+	ch := make(chan struct{})
+	go func() { lw.Wait(); close(ch) }()
+	select {
+	case <-ch:
+		return true
+	case <-time.After(d):
+		return false
+	}
+}
+
+func runDaemonFaultInner(cause string, load bool) string {
 	sshdFifo, auditFifo, out := cause != "notfifo-sshd", cause != "notfifo-audit", ""
 	if cause == "writeerr" {
 		out = "/dev/full"
@@ -164,6 +203,9 @@ func runDaemonFault(cause string, load bool) string {
 	if err != nil {
 		return "X:startfail"
 	}
+	curMu.Lock()
+	curDaemon = d
+	curMu.Unlock()
 	defer d.stop()
 	if cause == "writeerr-audit" || cause == "writeerr-audit-burst" {
 		// a correlated session, so that the audit side writes an event for every record of the load
@@ -216,7 +258,11 @@ func runDaemonFault(cause string, load bool) string {
 		d.sshdW = nil
 	case "eof-audit":
 		close(stopLoad)
-		lw.Wait()
+		if !waitBounded(&lw, 15*time.Second) {
+			d.cmd.Process.Kill()
+			lw.Wait()
+			return "X:0:0" // the daemon stopped reading its audit pipe while running
+		}
 		stopLoad = make(chan struct{})
 		t0 = time.Now()
 		d.auditW.Close()
@@ -224,7 +270,11 @@ func runDaemonFault(cause string, load bool) string {
 	case "badline":
 		if load {
 			close(stopLoad)
-			lw.Wait()
+			if !waitBounded(&lw, 15*time.Second) {
+				d.cmd.Process.Kill()
+				lw.Wait()
+				return "X:0:0"
+			}
 			stopLoad = make(chan struct{})
 			t0 = time.Now()
 		}
@@ -270,6 +320,10 @@ func runDaemonFault(cause string, load bool) string {
 	case <-time.After(exitBound):
 	}
 	close(stopLoad)
+	if res == "X:0:0" {
+		// still running after the bound: release the writer that is blocked on the full pipe
+		d.cmd.Process.Kill()
+	}
 	lw.Wait()
 	_ = written
 	return res
